@@ -50,3 +50,59 @@ Lemma env_spec_ok_model e n :
 Proof.
   unfold env_get_default, env_get_nodefault. destruct (env_lookup e n); simpl; split; intros; auto using seq_eqb_refl.
 Qed.
+
+(* ---- the result of get is a value: held results are not altered by later gets or later environment changes ---- *)
+Lemma h_step_keeps_results st o k r :
+  nth_error (hres st) k = Some r -> nth_error (hres (fst (h_step st o))) k = Some r.
+Proof.
+  intros H. destruct o as [o|j]; simpl; auto.
+  destruct (env_res (henv st) o); auto.
+  rewrite nth_error_app1; auto. apply nth_error_Some. rewrite H. discriminate.
+Qed.
+
+Lemma held_result_stable st ops k r :
+  nth_error (hres st) k = Some r -> nth_error (hres (h_run st ops)) k = Some r.
+Proof.
+  revert st. induction ops as [|o ops IH]; intros st H; simpl; auto.
+  apply IH. apply h_step_keeps_results. exact H.
+Qed.
+
+(* the outcome a get produces in state st — by the three clauses: the variable's value at that moment / the default /
+   raise — is what a read of that result finds immediately and after ANY further history (gets of the same or other
+   variables through either overload, setenv / unsetenv of the same variable, other reads) *)
+Lemma get_result_is_value st o r more :
+  env_res (henv st) o = Some r ->
+  snd (h_step (h_run (fst (h_step st (HOp o))) more) (HRead (length (hres st)))) = Some r.
+Proof.
+  intros H. simpl. apply held_result_stable. simpl. rewrite H.
+  rewrite nth_error_app2; auto. rewrite PeanoNat.Nat.sub_diag. reflexivity.
+Qed.
+
+(* two results held at the same time are independent: each keeps its own outcome *)
+Lemma two_held_results_independent st o1 o2 r1 r2 mid more :
+  env_res (henv st) o1 = Some r1 ->
+  let st1 := h_run (fst (h_step st (HOp o1))) mid in
+  env_res (henv st1) o2 = Some r2 ->
+  let st2 := h_run (fst (h_step st1 (HOp o2))) more in
+  snd (h_step st2 (HRead (length (hres st)))) = Some r1 /\ snd (h_step st2 (HRead (length (hres st1)))) = Some r2.
+Proof.
+  intros H1 st1 H2 st2. split.
+  - unfold st2. change (nth_error (hres (h_run (fst (h_step st1 (HOp o2))) more)) (length (hres st)) = Some r1).
+    apply held_result_stable. apply h_step_keeps_results.
+    exact (get_result_is_value st o1 r1 mid H1).
+  - apply (get_result_is_value st1 o2 r2 more H2).
+Qed.
+
+(* a get outcome satisfies the oracle's clause for the environment of that moment *)
+Lemma env_res_spec_ok e o r :
+  env_res e o = Some r ->
+  match o with
+  | EGet n d => env_spec_ok (env_lookup e n) (Some d) r = true
+  | EGetDefaulted n => env_spec_ok (env_lookup e n) (Some []) r = true
+  | EGetNoDefault n => env_spec_ok (env_lookup e n) None r = true
+  | _ => False
+  end.
+Proof.
+  destruct o; simpl; intros H; try discriminate; injection H as <-;
+    unfold env_get_default, env_get_nodefault; destruct (env_lookup e n); simpl; auto using seq_eqb_refl.
+Qed.
